@@ -578,13 +578,13 @@ type e2eDel struct {
 }
 
 type e2eRow struct {
-	Scn       e2eScn    `json:"scn"`
-	Names     []e2eName `json:"names"`
-	Trailing  []bool    `json:"trailing"` // per name index: last handler parameter is a string
-	Arity     []int     `json:"arity"`
-	Regs      map[string][]int `json:"regs"` // per name index: handler registrations (see e2eRegs)
-	ProbeSet  int64     `json:"probe_set"`  // offset-probe handler saw a non-empty extra parameter
-	ProbeZero int64     `json:"probe_zero"` // ... saw the zero value
+	Scn       e2eScn           `json:"scn"`
+	Names     []e2eName        `json:"names"`
+	Trailing  []bool           `json:"trailing"` // per name index: last handler parameter is a string
+	Arity     []int            `json:"arity"`
+	Regs      map[string][]int `json:"regs"`       // per name index: handler registrations (see e2eRegs)
+	ProbeSet  int64            `json:"probe_set"`  // offset-probe handler saw a non-empty extra parameter
+	ProbeZero int64            `json:"probe_zero"` // ... saw the zero value
 	// websocket traffic WITH attachments while a poll response of the old transport is still in flight
 	// (held-transfer scenarios): outside feeders_safe of Sio/EndToEnd.v
 	WsAttInFlight bool     `json:"ws_att_in_flight"`
@@ -1126,6 +1126,16 @@ func e2eMatrix(seed uint64, tier string) []e2eScn {
 			id++
 		}
 	}
+	// connect window: events before / while / after the client processes the CONNECT reply, with a
+	// blocking client handler (e2e_connect.go)
+	for round := 0; round < rounds; round++ {
+		for _, tr := range []string{"polling", "websocket", "upgrade"} {
+			scns = append(scns, e2eScn{ID: id, Transport: tr, Recovery: false, Dir: "s2c", Clients: 2,
+				Emitters: 1 + r.Intn(4), Per: 6, Size: "tiny", Names: []int{0, 1, 2, 3, 4, 7, 8, 9, 10, 11, 12, 13},
+				Held: "connect", Seed: r.U64()})
+			id++
+		}
+	}
 	// the special names: trailing backslash (C09) and the empty name, both directions
 	for _, dir := range []string{"s2c", "c2s"} {
 		for _, special := range []int{14, 15} {
@@ -1174,7 +1184,9 @@ func e2eMain(args []string) error {
 			defer func() { <-sem }()
 			var row e2eRow
 			for attempt := 0; attempt < 3; attempt++ {
-				if s.Held != "" {
+				if s.Held == "connect" {
+					row = e2eRunConnect(s, lim)
+				} else if s.Held != "" {
 					row = e2eRunHeld(s, lim)
 				} else {
 					row = e2eRunScenario(s, lim)
